@@ -210,8 +210,12 @@ C10OutsideQuantifier(pre, a) ==
   \/ (a.right /\ \E x \in SeqSet(a.tc) : pre.g[x].t # "INPUT")
 C10StepFails(c, l) ==
   LET st == c.steps[l]  a == st.act  pre == HPre(c, l)
-  IN IF a.a # "connect" \/ st.ret # "ok" \/ ~WellFormed(pre) THEN {}
+  IN IF a.a # "connect" \/ ~WellFormed(pre) THEN {}
      ELSE IF C10OutsideQuantifier(pre, a) THEN {}
+     ELSE IF st.ret # "ok"
+          \* a composition the documentation allows (the model's enabling condition: connectors of the right
+          \* kind, no repeats on the replaced side, no label or block-name clash) must be carried out
+          THEN (IF SpecPre(pre, a) /\ ~C10Unspecified(a) THEN {"documented-composition-raised:" \o st.exc} ELSE {})
      ELSE IF C10Unspecified(a) THEN {}
      ELSE LET other == ActOther(a)
               post == st.post
